@@ -170,3 +170,63 @@ func verifC06_close_sched() {
 	vAssert(vGhostGoroutines() == 0, "C20.sched.no-goroutine-left")
 	vObserve("close-sched", nClose)
 }
+
+// C06.recv: the peer closes: a Close frame with any valid wire code and a reason of 0..123 bytes (also the empty
+// payload) arrives before, between or after messages; the read at that message boundary fails with a CloseError holding
+// exactly that code and reason (CloseStatus returns the code), the frame is echoed with the same code and reason, and
+// the connection is closed for good afterwards.
+func verifC06_recv() {
+	client := vParam("client", 1) == 1
+	vInstallRand()
+	mk := func(f vFrame) vFrame {
+		f.masked = !client
+		if f.masked {
+			copy(f.key[:], vBytes("key", 4))
+		}
+		return f
+	}
+	nBefore := vChoose("before", 3)
+	var frames []vFrame
+	for i := 0; i < nBefore; i++ {
+		frames = append(frames, mk(vFrame{fin: true, opcode: 2, payload: vBytes("m", 1)}))
+	}
+	var payload []byte
+	var code int64 = 1005
+	var reason []byte
+	if vChoose("empty", 2) == 0 {
+		pc := vBytes("peerCode", 2)
+		code = int64(pc[0])<<8 | int64(pc[1])
+		vAssume(vRefValidWireCode(code))
+		reason = vBytes("reason", []int{0, 1, 122, 123}[vChoose("reasonLen", vParam("reasonLens", 4))])
+		payload = append(append([]byte{}, pc...), reason...)
+	}
+	frames = append(frames, mk(vFrame{fin: true, opcode: 8, payload: payload}))
+	t := vNewTransport(vEncodeFrames(frames))
+	t.endMode = vEndBlock
+	t.step = vChoose("step", 2) * 7
+	c := vNewConn(t, client, nil, 16, 256)
+	for i := 0; i < nBefore; i++ {
+		_, _, err := c.Read(vBG)
+		vAssert(err == nil, "C06.recv.messages-before-close")
+	}
+	_, _, err := c.Read(vBG)
+	vReach("C06.recv.read-returned")
+	var ce CloseError
+	if errors.As(err, &ce) {
+		vAssert(vAnd(int64(ce.Code) == code, vEqStr(ce.Reason, string(reason))), "C06.recv.close-error-holds-code-and-reason")
+		vAssert(int64(CloseStatus(err)) == code, "C06.recv.close-status")
+	} else {
+		vAssert(false, "C06.recv.read-fails-with-close-error")
+	}
+	first, nClose, _, ok := vCloseFrames(t.out)
+	vAssert(vAnd(ok, nClose == 1), "C06.recv.one-echo")
+	if nClose >= 1 {
+		vAssert(vEqBytes(first, payload), "C06.recv.echo-same-code-and-reason")
+	}
+	vAssert(vNot(vIsOpen(c)), "C06.recv.closed-for-good")
+	_, _, e1 := c.Reader(vBG)
+	e2 := c.Write(vBG, MessageText, []byte("x"))
+	vAssert(vAnd(e1 != nil, e2 != nil), "C06.recv.calls-fail")
+	c.CloseNow()
+	vObserve("c06recv", nBefore, code, len(reason))
+}
